@@ -44,6 +44,14 @@ def cases(draw, tier="quick"):
     return {"spec": spec, "base": base, "mods": sorted(mods), "extra": extra, "seed": draw(st.integers(0, 2 ** 31))}
 
 
+def fixed_cases(tier):
+    """Name-table matrix: total name bytes on / next to 2^8 and 2^16, every name parsed by every mode."""
+    out = []
+    for spec in C.name_table_specs():
+        out.append({"spec": spec, "base": {"feats": [], "groups": [], "pos": []}, "mods": [0, 1, 4], "extra": [], "seed": 1, "all_names": True})
+    return out
+
+
 def run_case(case):
     out = J.Outcome()
     spec = case["spec"]
@@ -51,7 +59,7 @@ def run_case(case):
     rnd = J.case_rng(case)
     strings = C.near_miss_strings(m, rnd)
     names = list(dict.fromkeys(m.names))
-    if len(names) > 48:
+    if len(names) > 48 and not case.get("all_names"):
         names = rnd.sample(names, 48)
     # script arguments are space-separated hex, any text is fine; surrogates cannot occur in st.text()
     strings = sorted(set(strings) | set(names) | set(case["extra"]))
